@@ -4,6 +4,7 @@ and independent property oracles on the implementation (validity of the output, 
 incremental log-likelihood with its definition, bookkeeping, reproducibility)."""
 import io
 import itertools
+import random
 import math
 import time
 import contextlib
@@ -43,7 +44,14 @@ RULE = ("first the committed witnesses of every repaired defect (D30, D36, D37, 
         "the harness may overwrite every array returned so far, change A or B in place (add / replace / reweight / remove and "
         "re-insert a hyperedge, possibly taking in an isolated node), re-seed numpy's global generator, set a public "
         "attribute of the model (seed, n_realizations, max_iter, min_value_par); every call is compared with the same call "
-        "on a fresh model object and a freshly rebuilt hypergraph. "
+        "on a fresh model object and a freshly rebuilt hypergraph; "
+        "(e) large hypergraphs, 300-1100 nodes (quick: one of 301-400 and one of 500-800 nodes; sizes also next to 256, 300, 512, "
+        "1000), disconnected with 2-9 components of unequal size, identical copies of one component, hundreds of components of 2-4 "
+        "nodes, a circulant ring (all with a degenerate Laplacian spectrum), planted groups on a connected hypergraph, a few "
+        "hyperedges of 9-22 nodes, int / large int / str labels in random order, 0-5 isolated nodes, weighted or not: HySC.fit 2-4 "
+        "times with the same seed in one process (fresh objects, the same object again, numpy's global generator re-seeded in "
+        "between; also weighted_L) - valid 0/1 matrix each time, all equal; HypergraphMT.fit twice + step by step with every oracle "
+        "of (a) and, in place of the Lean model, rho and psiOmega of every sweep against their definitions. "
         "A case is distinct by (hyperedges, weights, isolated nodes, K, seed, configuration); non-trivial when at least two "
         "EM sweeps ran, the log-likelihood strictly increased at least once and the returned u has two different non-zero rows; "
         "a session is non-trivial when it has a repeated call and two calls with different results")
@@ -55,6 +63,7 @@ ASSUMPTIONS = [
     "the state after sweep t of a realisation is what fit returns for max_iter = t+1, n_realizations = 1 and that realisation's seed: an invalid intermediate state is reported only after fit itself was run on that configuration and returned / raised the same",
     "a hypergraph object that was fitted before (other seed) or changed in place gives the same result as a freshly built hypergraph with the same insertion history",
     "run twice = two fresh model objects, the same object twice in a row, the same object with other calls (other hypergraph, K, seed, options) in between, in one process: every call of fit must return exactly what a fresh object returns for the same arguments and the current content of the hypergraph (HySC: K-means is seeded anew from self.seed in every call; HypergraphMT: _check_fit_params rebuilds all state and, since the D52 repair, fit resets maxL); arrays returned earlier stay as they were; fit leaves the hypergraph (listings, weights incl. number types, every attribute) untouched",
+    "large cases: the Lean model is not run (its index-style lists are linear-time); the per-call limit of 30 s counts CPU seconds of the process there; parts of a large case that do not fit into the stage's time cap (quick 10 s, thorough 130 s) are left out and counted",
     "a session call whose reference call on a fresh object raises (K-means, ill-conditioned state) ends the session without a verdict: failures of a single call are the business of classes (a)-(c)",
 ]
 TRUSTED = [
@@ -79,8 +88,20 @@ def _alarm(signum, frame):
     raise Timeout()
 
 
+CPU_TIMER = [False]    # large cases: the limit counts CPU seconds of this process (a busy machine must not look like a hang)
+
+
 @contextlib.contextmanager
 def limit(seconds):
+    if CPU_TIMER[0]:
+        old = signal.signal(signal.SIGPROF, _alarm)
+        signal.setitimer(signal.ITIMER_PROF, float(seconds))
+        try:
+            yield
+        finally:
+            signal.setitimer(signal.ITIMER_PROF, 0.0)
+            signal.signal(signal.SIGPROF, old)
+        return
     old = signal.signal(signal.SIGALRM, _alarm)
     signal.alarm(int(seconds))
     try:
@@ -411,7 +432,21 @@ def cfg_tokens(st, enc, minv, maxv=(100.0, 100.0), eps=EPS, normU=False):
 # independent definitions (oracles)
 
 def esymm_def(xs, d):
+    if d > 1 and math.comb(len(xs), d) > 200000:
+        return esymm_all(xs, d)[d]
     return math.fsum(math.prod(c) for c in itertools.combinations(xs, d))
+
+
+def esymm_all(xs, dmax):
+    """e_0..e_dmax of xs by the product formula prod_i (1 + x_i t) (truncated); for large N, where the sum over subsets
+    is out of reach.  Non-negative xs: additions of non-negative terms only, relative error <= about N * dmax ulps"""
+    e = [1.0] + [0.0] * dmax
+    for x in xs:
+        if x == 0.0:
+            continue
+        for j in range(dmax, 0, -1):
+            e[j] += x * e[j - 1]
+    return e
 
 
 def loglik_def(static, u, w):
@@ -421,9 +456,15 @@ def loglik_def(static, u, w):
     for e, a in zip(static["edges"], static["A"]):
         lam = math.fsum(w[len(e) - 2][k] * math.prod(u[i][k] + EPS for i in e) for k in range(K))
         tot.append(a * math.log(lam + 1e-300))
-    for d in range(D - 1):
-        for k in range(K):
-            tot.append(-w[d][k] * esymm_def([u[i][k] for i in range(static["N"])], d + 2))
+    for k in range(K):
+        col = [u[i][k] for i in range(static["N"])]
+        if sum(math.comb(len(col), d) for d in range(2, D + 1)) > 200000:
+            ea = esymm_all(col, D)
+            for d in range(D - 1):
+                tot.append(-w[d][k] * ea[d + 2])
+        else:
+            for d in range(D - 1):
+                tot.append(-w[d][k] * esymm_def(col, d + 2))
     return math.fsum(tot)
 
 
@@ -573,6 +614,13 @@ def wrap_prng(m, ev):
     m.prng = hgxv.RngProxy(m.prng, ev["draws"], "prng")
 
 
+def columns_of(B, E):
+    """sorted row indices of the stored non-zero entries of every column"""
+    C = B.tocsc(copy=True)
+    C.eliminate_zeros()
+    return [sorted(int(i) for i in C.indices[C.indptr[j]:C.indptr[j + 1]]) for j in range(E)]
+
+
 def drive(case, h):
     """mirror of HypergraphMT.fit; returns a Trace with everything observed (never raises)"""
     import numpy as np
@@ -589,7 +637,7 @@ def drive(case, h):
             instrument(m, ev)
             wrap_prng(m, ev)
             t.static = {"N": int(m.N), "K": int(m.K), "D": int(m.D), "E": int(m.E),
-                        "edges": [sorted(int(i) for i in m.binary_incidence[:, [j]].nonzero()[0]) for j in range(m.E)],
+                        "edges": columns_of(m.binary_incidence, int(m.E)),
                         "A": [float(x) for x in m.hye_weights],
                         "sizes": [int(x) for x in m.HyeId2D],
                         "isolates": [int(i) for i in m.isolates], "non_isolates": [int(i) for i in m.non_isolates],
@@ -879,6 +927,13 @@ def inputs_def(case, h, st):
     A = [want[tuple(c)] for c in st["edges"]]
     if [float(x) for x in st["A"]] != A:
         return A, f"hye_weights {st['A']} (dtype {st['w_dtype']}) are not the weights of the hyperedges {A}"
+    if st["N"] * len(st["edges"]) > 20000:
+        import numpy as np
+        wantM = np.zeros((st["N"], len(st["edges"])))
+        for j, c in enumerate(st["edges"]):
+            wantM[c, j] = A[j]
+        if np.array_equal(wantM, np.asarray(st["inc"], dtype=float)):
+            return A, None
     for j, c in enumerate(st["edges"]):
         for i in range(st["N"]):
             w_ = A[j] if i in c else 0.0
@@ -944,6 +999,46 @@ def check_history(ctx, case, h, r1, hysc=True):
             ctx.violation(case, f"after the in-place change ({desc}) HySC.fit differs from a freshly built equal hypergraph")
 
 
+def large_state_oracles(static, S):
+    """large cases (the Lean model is not run on them): the two internal tables the theorems speak about, from their definitions,
+    on the implementation's state after a sweep.  rho (C17_free_energy: the posterior at the (u, w) the sweep ends with, rows
+    normalised when their sum is positive) and psiOmega (C17_psi: psiOmega[d][k] = e_{d+1}(u[:, k]))."""
+    import numpy as np
+    ua = np.asarray(S["after"]["u"], dtype=float)
+    wa = np.asarray(S["after"]["w"], dtype=float)
+    rho = np.asarray(S["after"]["rho"], dtype=float)
+    psi = S["after"]["psi"]
+    N, K, D = static["N"], static["K"], static["D"]
+    if rho.shape != (len(static["edges"]), K):
+        return f"rho has shape {rho.shape}, expected {(len(static['edges']), K)}"
+    with np.errstate(all="ignore"):
+        logu = np.log(ua + EPS)
+        for j, e in enumerate(static["edges"]):
+            r = wa[len(e) - 2] * np.exp(logu[e].sum(axis=0))
+            tot = float(r.sum())
+            if not math.isfinite(tot) or 0 < tot < 1e-290:
+                continue            # the normalisation itself is out of binary64's range
+            if tot > 0:
+                r = r / tot
+            if not np.all(np.abs(r - rho[j]) <= 1e-9):
+                k = int(np.argmax(np.abs(r - rho[j])))
+                return (f"rho of hyperedge {j} (nodes {e[:6]}{'...' if len(e) > 6 else ''}) after sweep {S['it']}: entry {k} is "
+                        f"{float(rho[j][k])!r}, the posterior w[|e|-2,k] prod u / sum_k at the state it was computed from gives {float(r[k])!r}")
+    pm = [list(r) for r in S["psimax"]]
+    um = S.get("umax") or [1.0] * K
+    for d in range(1, len(pm)):
+        for k in range(K):
+            pm[d][k] = max(pm[d][k], pm[d - 1][k] * min(um[k], 1e2))
+    for k in range(K):
+        ea = esymm_all([float(x) for x in ua[:, k]], D)
+        for d in range(D):
+            tol = 1e-9 * abs(ea[d + 1]) + 16 * D * N * (S["it"] + 2) * 2.3e-16 * pm[d][k]
+            if not (abs(psi[d][k] - ea[d + 1]) <= tol):
+                return (f"psiOmega[{d}][{k}] after sweep {S['it']} is {psi[d][k]!r}, the elementary symmetric polynomial of degree {d + 1} "
+                        f"of column {k} of u is {ea[d + 1]!r} (tolerance {tol:.3g})")
+    return None
+
+
 def trimmed(case, R, it):
     """the configuration whose fit returns the state after sweep `it` of realisation R"""
     c = {k: v for k, v in case.items() if k not in ("mutate",)}
@@ -969,7 +1064,7 @@ def confirm_state(ctx, case, h, R, S, iso, K, minv, bad):
     return False
 
 
-def check_case(ctx, drv, case, full=True, light=False):
+def check_case(ctx, drv, case, full=True, light=False, once=False):
     """all oracles and the correspondence for one configuration; returns a dict of facts (for witnesses)"""
     import numpy as np
     facts = {"decrease_clamp": None, "decrease_ill": None, "mismatch_ill": None, "decrease_repair": None}
@@ -1003,7 +1098,8 @@ def check_case(ctx, drv, case, full=True, light=False):
         r2 = r1
     else:
         r1 = run_fit(case, h)
-        r2 = run_fit(case, h)
+        # once (large cases of the quick tier): the step-by-step replica below is the second run with the same seed
+        r2 = r1 if once else run_fit(case, h)
     nontrivial = False
     if r1[0] == "exc" or t.error:
         # the call must succeed; the only tolerated failure is the ill-conditioned class D35
@@ -1080,6 +1176,7 @@ def check_case(ctx, drv, case, full=True, light=False):
     n_sweeps = 0
     increased = False
     confirmed = False
+    repaired, large_state_reported = {}, False
     for R in t.reals:
         prev = None
         for S in R["sweeps"]:
@@ -1125,6 +1222,16 @@ def check_case(ctx, drv, case, full=True, light=False):
                                   f"log-likelihood decreases {prev!r} -> {L!r} (realisation {R['r']}, iteration {S['it']}) "
                                   "with unconstrained memberships, no clamp/repair event, state not ill-conditioned")
             prev = L
+            if case.get("large") and st is not None and ok_shape:
+                repaired[R["r"]] = repaired.get(R["r"], False) or bool(S["repair"]) or bool(R.get("init_repair"))
+                if S["ill"] or repaired[R["r"]] or not all(math.isfinite(x) for r in S["after"]["u"] + S["after"]["w"] for x in r):
+                    ctx.count("large_state_oracles_skipped_ill_conditioned_or_repair")
+                else:
+                    bad_state = large_state_oracles(st, S)
+                    ctx.count("large_states_checked_rho_psi")
+                    if bad_state and not large_state_reported:
+                        large_state_reported = True
+                        ctx.disagree({**case, "realization": R["r"], "iter": S["it"]}, bad_state)
             if minv == 0 and st is not None:
                 Ld = loglik_def(st, S["after"]["u"], S["after"]["w"])
                 tol = agree_tol(st, S, L)
@@ -1147,7 +1254,7 @@ def check_case(ctx, drv, case, full=True, light=False):
     ctx.count("sweeps", n_sweeps)
     ctx.count("cfg_normU" if case["normalizeU"] else "cfg_free")
     ctx.count("cfg_thr0" if minv == 0 else "cfg_thr1e-5")
-    ctx.case(key, nontrivial, sample=case)
+    ctx.case(key, nontrivial, sample=None if case.get("large") else case)
 
     # ---- HySC --------------------------------------------------------------------------------
     if full:
@@ -2038,7 +2145,7 @@ REGRESSION_SIGNATURE = {     # how the defect showed: anything else on the same 
     "D37": ("does not return", "non-finite"),
     "D36": ("normalizeU=True but non-zero rows", "negative entries"),
 }
-STAGES = [x for x in (os.environ.get("C17_STAGES") or "corpus,known,esymm,sparse,sessions,general,small").split(",") if x]   # debugging aid
+STAGES = [x for x in (os.environ.get("C17_STAGES") or "corpus,known,large,esymm,sparse,sessions,general,small").split(",") if x]   # debugging aid
 
 
 def replay_regressions(ctx, drv):
@@ -2079,6 +2186,263 @@ def run_small(ctx, drv, n_graphs, per_graph, full_every):
     return True
 
 
+# ------------------------------------------------------------------------------------------
+# (e) LARGE hypergraphs: a few hundred to a thousand nodes, disconnected / symmetric (degenerate Laplacian spectrum) or
+# connected, every clause of the property again at that size, every fit several times in this process.
+#
+# a large case carries its hypergraph as a compact spec (`case["large"]`); `expand_large` rebuilds edges / weights / isolated
+# nodes from it with a private PRNG, so violations and replays stay small.
+
+LARGE_KINDS = ("blocks", "blocks", "copies", "tiny", "ring", "planted", "blocks_big")
+
+
+LARGE_DISCONNECTED = ("blocks", "copies", "tiny", "blocks_big")
+
+
+def gen_large_spec(rng, n_lo, n_hi, kinds=LARGE_KINDS, densities=(0.3, 1.0, 1.0, 2.0), n_isos=(0, 1, 2, 2, 5)):
+    kind = rng.choice(kinds)
+    # sizes on both sides of round numbers (300, 256, 512, 1000): a size-dependent code path switches somewhere there
+    n = rng.choice([rng.randint(n_lo, n_hi), rng.randint(n_lo, n_hi),
+                    min(n_hi, max(n_lo, rng.choice([256, 300, 400, 500, 512, 768, 1000, 1024]) + rng.choice([-1, 0, 1, 2, 30])))])
+    return {"kind": kind, "n": n, "nb": rng.randint(2, 9), "gseed": rng.randint(0, 10 ** 9),
+            "labels": rng.choice(["int", "int", "intbig", "str"]), "weighted": rng.random() < 0.4,
+            "n_iso": rng.choice(n_isos), "density": rng.choice(densities)}
+
+
+def _connected_block(g, nodes, density, dmax=4):
+    """a path through `nodes` (keeps the block connected) plus density * len(nodes) random hyperedges of size 2..dmax"""
+    out = [(nodes[i], nodes[i + 1]) for i in range(len(nodes) - 1)]
+    if len(nodes) >= 3:
+        for _ in range(int(density * len(nodes))):
+            out.append(tuple(g.sample(nodes, g.randint(2, min(dmax, len(nodes))))))
+    return out
+
+
+def expand_large(spec):
+    """(edges, weights, isolated) of a large spec - a pure function of the spec"""
+    g = random.Random(spec["gseed"])
+    n, nb, kind = spec["n"], spec["nb"], spec["kind"]
+    idx = list(range(n))
+    raw = []
+    if kind in ("blocks", "blocks_big"):
+        # nb components of unequal sizes: eigenvalue 0 of the Laplacian has multiplicity nb
+        cuts = sorted(g.sample(range(3, n - 3), nb - 1))
+        parts = [idx[a:b] for a, b in zip([0] + cuts, cuts + [n])]
+        for part in parts:
+            raw += _connected_block(g, part, spec["density"]) if len(part) >= 2 else []
+        if kind == "blocks_big":
+            # hyperedges far larger than the rest (expected rate of the hyperedge far below 1e-20 at this N)
+            for _ in range(g.randint(1, 3)):
+                part = g.choice([p for p in parts if len(p) >= 2])
+                raw.append(tuple(g.sample(part, min(len(part), g.randint(9, 22)))))
+    elif kind == "copies":
+        # nb IDENTICAL components: every eigenvalue has multiplicity >= nb
+        size = max(2, n // nb)
+        proto = _connected_block(g, list(range(size)), spec["density"])
+        for b in range(nb):
+            raw += [tuple(b * size + x for x in e) for e in proto]
+        n = size * nb
+    elif kind == "tiny":
+        # components of 2-4 nodes, one hyperedge each (plus a sub-hyperedge now and then): multiplicity of 0 = n / size
+        size = g.choice([2, 3, 3, 4])
+        for a in range(0, n - size + 1, size):
+            raw.append(tuple(range(a, a + size)))
+            if size > 2 and g.random() < 0.2:
+                raw.append((a, a + 1))
+        n = (n // size) * size
+    elif kind == "ring":
+        # circulant, connected: every non-trivial eigenvalue is double
+        step = g.choice([1, 1, 2])
+        for i in range(n):
+            raw.append((i, (i + 1) % n))
+            if step == 2:
+                raw.append((i, (i + 1) % n, (i + 2) % n))
+    else:
+        # planted groups, connected through a path over all nodes
+        groups = [idx[b::nb] for b in range(nb)]
+        raw += [(idx[i], idx[i + 1]) for i in range(n - 1)]
+        for grp in groups:
+            for _ in range(int(spec["density"] * len(grp))):
+                raw.append(tuple(g.sample(grp, g.randint(2, min(4, len(grp))))))
+    n_iso = spec["n_iso"]
+    # labels: a random bijection (blocks are interleaved in index order); comparable within one hypergraph
+    perm = list(range(n + n_iso))
+    g.shuffle(perm)
+    if spec["labels"] == "str":
+        lab = [f"v{p:05d}" if p % 3 else f"V{p}" for p in perm]
+    elif spec["labels"] == "intbig":
+        lab = [1000 + 7 * p for p in perm]
+    else:
+        lab = perm
+    seen, edges = set(), []
+    for e in raw:
+        e = tuple(dict.fromkeys(e))
+        kx = tuple(sorted(e))
+        if len(e) >= 2 and kx not in seen:
+            seen.add(kx)
+            edges.append(tuple(lab[x] for x in e))
+    g.shuffle(edges)
+    weights = [g.choice(WEIGHTS) for _ in edges] if spec["weighted"] else None
+    iso = [lab[n + j] for j in range(n_iso)]
+    return edges, weights, iso
+
+
+def large_case(spec, cfg):
+    edges, weights, iso = expand_large(spec)
+    return {"edges": edges, "weights": weights, "isolated": iso, "node_order": list(iso), **cfg, "large": dict(spec)}
+
+
+def compact(case):
+    """a large case without the parts that `expand_large` rebuilds"""
+    if isinstance(case, dict) and case.get("large"):
+        return {k: v for k, v in case.items() if k not in ("edges", "weights", "isolated", "node_order")}
+    return case
+
+
+class CompactCtx:
+    """the framework's context; violations / disagreements of large cases carry the spec instead of thousands of hyperedges"""
+
+    def __init__(self, ctx):
+        self._c = ctx
+
+    def __getattr__(self, name):
+        return getattr(self._c, name)
+
+    def violation(self, case, what):
+        self._c.violation(compact(case), what)
+
+    def disagree(self, case, what):
+        self._c.disagree(compact(case), what)
+
+
+def gen_large(rng, n_lo, n_hi, cheap=False, **kw):
+    spec = gen_large_spec(rng, n_lo, n_hi, **kw)
+    cfg = {"K": rng.choice([2, 3, 3, 4, 5, 6]), "seed": rng.randint(0, 10 ** 6), "n_realizations": 1 if cheap else rng.choice([1, 1, 2]),
+           "max_iter": rng.choice([2, 3] if cheap else [2, 3, 4]), "min_value_par": rng.choice([0.0, 1e-5]),
+           "normalizeU": rng.random() < 0.3, "baseline_r0": rng.random() < 0.65}
+    return large_case(spec, cfg)
+
+
+def hysc_call(m, h, K, weighted_L):
+    try:
+        with quiet(), limit(CALL_TIMEOUT):
+            return ("ok", m.fit(h, K=K, weighted_L=weighted_L) if weighted_L else m.fit(h, K=K))
+    except Timeout:
+        return ("exc", "timeout")
+    except Exception as ex:  # noqa: BLE001
+        return ("exc", f"{type(ex).__name__}: {ex}")
+
+
+def check_large_hysc(ctx, drv, case, h, n_fits, weighted_L=False):
+    """HySC.fit `n_fits` times with the same seed in this process - fresh objects, the same object again, numpy's global
+    generator re-seeded in between: 0/1 matrix with one 1 per non-isolated node every time, all results identical"""
+    import numpy as np
+    from hypergraphx.communities.hy_sc.model import HySC
+    K = case["K"]
+    nodes_in_edges = set(x for e in case["edges"] for x in e)
+    try:
+        mapping = h.get_mapping()
+        lab = sorted(nodes_in_edges, key=repr)
+        non_iso = set(int(v) for v in mapping.transform(lab))
+        Ndef = len(nodes_in_edges | set(case.get("isolated", [])))
+    except Exception:  # noqa: BLE001
+        non_iso, Ndef = None, None
+    wl = ", weighted_L=True" if weighted_L else ""
+    first, m_first, results = None, None, []
+    for j in range(n_fits):
+        if j == 2 and m_first is not None:
+            m = m_first                      # the third fit re-uses the first object
+        else:
+            m = HySC(seed=case["seed"])
+        if j:
+            np.random.seed(1000 + 17 * j)    # results must not depend on numpy's global generator
+        r = hysc_call(m, h, K, weighted_L)
+        ctx.count("large_hysc_fits")
+        if r[0] == "exc":
+            ctx.violation(case, f"HySC.fit{wl} does not return (fit number {j + 1} of {n_fits}): {r[1]}")
+            return
+        X = np.asarray(r[1])
+        if Ndef is not None:
+            bad = hysc_shape(X, Ndef, K, non_iso)
+            if bad:
+                ctx.violation(case, bad + (f" (fit number {j + 1}{wl})"))
+                return
+        if first is None:
+            first, m_first = X.copy(), m
+        elif not np.array_equal(first, X):
+            n_diff = int((first != X).any(axis=1).sum()) if first.shape == X.shape else -1
+            ctx.violation(case, f"runs 1 and {j + 1} of HySC.fit{wl} with the same seed "
+                                f"{'(run ' + str(j + 1) + ' on the object of run 1) ' if m is m_first else ''}"
+                                f"differ in the rows of {n_diff} nodes of {X.shape[0]}")
+            return
+        results.append(X)
+    ctx.count("large_hysc_cases")
+    two = first is not None and len(set(map(tuple, first[first.any(axis=1)]))) >= 2
+    if two:
+        ctx.count("large_hysc_cases_with_two_communities_used")
+    ctx.case("large-hysc:" + repr((case["large"], K, case["seed"], weighted_L)), bool(two))
+
+
+def check_large(ctx, drv, case, hysc_fits=3, mt=True, until=None, replaying=False):
+    """one large case: HySC several times, then HypergraphMT through every oracle of check_case (fit twice + step by step);
+    `until`: wall-clock time after which the remaining parts are left out"""
+    cctx = CompactCtx(ctx)
+    try:
+        with quiet():
+            h = build(case)
+    except Exception as ex:  # noqa: BLE001
+        cctx.violation(case, f"cannot build the hypergraph: {type(ex).__name__}: {ex}")
+        return
+    spec = case["large"]
+    ctx.count("large_cases")
+    ctx.count("large_kind_" + spec["kind"])
+    nn = len(set(x for e in case["edges"] for x in e))
+    ctx.count("large_cases_above_300_nodes" if nn > 300 else "large_cases_up_to_300_nodes")
+
+    def late():
+        if until is not None and time.time() > until:
+            ctx.count("large_parts_left_out_time")
+            return True
+        return False
+
+    t0 = time.time()
+    CPU_TIMER[0] = True
+    try:
+        check_large_hysc(cctx, drv, case, h, hysc_fits)
+        if case["weights"] is not None and hysc_fits >= 3 and not late():
+            check_large_hysc(cctx, drv, case, h, 2, weighted_L=True)
+        t1 = time.time()
+        if mt and not ctx.too_many() and not late():
+            # full=False: HySC was exercised above; drv=None: the Lean model is run on the small classes (its lists are linear-time)
+            check_case(cctx, None, case, full=False, once=(ctx.tier == "quick" and not replaying))
+    finally:
+        CPU_TIMER[0] = False
+    ctx.count("large_seconds_hysc_x10", int(10 * (t1 - t0)))
+    ctx.count("large_seconds_mt_x10", int(10 * (time.time() - t1)))
+
+
+def run_large(ctx, drv):
+    """(n_lo, n_hi, number of HySC fits, HypergraphMT too, generator options); the library builds its incidence matrices with one
+    LabelEncoder call per hyperedge (0.3 ms each, three matrices per fit), so quick keeps the number of hyperedges down"""
+    if ctx.tier == "quick":
+        plan = [(301, 400, 3, True, {"kinds": LARGE_DISCONNECTED, "densities": (0.2, 0.4), "n_isos": (1, 2, 3, 5)}),
+                (500, 800, 2, False, {"densities": (0.2, 0.3), "n_isos": (1, 2, 3, 5)})]
+    else:
+        plan = [(301, 430, 4, True, {"kinds": LARGE_DISCONNECTED})] * 4 + [(301, 430, 4, True, {})] * 2 \
+            + [(200, 330, 3, True, {})] * 2 + [(430, 700, 3, True, {})] * 3 \
+            + [(700, 1100, 3, False, {"densities": (0.2, 0.5, 1.0)})] * 3 + [(700, 1000, 2, True, {"densities": (0.2, 0.5)})] * 1
+    t0 = time.time()
+    cap = ctx.scale(10.0, 130.0)
+    for j, (lo, hi, fits, mt, kw) in enumerate(plan):
+        case = gen_large(ctx.rng, lo, hi, cheap=(ctx.tier == "quick"), **kw)
+        check_large(ctx, drv, case, hysc_fits=fits, mt=mt, until=t0 + cap)
+        if ctx.too_many():
+            return
+        if time.time() - t0 > cap or (ctx.time_left() is not None and ctx.time_left() < 20):
+            ctx.count("large_stage_stopped_early_cases_done", j + 1)
+            return
+
+
 def run(ctx):
     drv = ctx.driver() if ctx.model_available else None
     if "corpus" in STAGES:
@@ -2086,6 +2450,10 @@ def run(ctx):
         replay_d52(ctx, drv)
     if "known" in STAGES:
         replay_witnesses(ctx, drv)
+    if "large" in STAGES:
+        run_large(ctx, drv)
+        if ctx.too_many():
+            return
     if drv is not None and "esymm" in STAGES:
         esymm_lines(ctx, drv, ctx.rng, ctx.scale(40, 400))
     # exact rational sweeps have a heavy tail (the rationals grow with every node update): both exact stages stop at a time cap
@@ -2134,6 +2502,10 @@ def replay(ctx, case):
     case = dict(case)
     if "session" in case:
         run_session(ctx, drv, norm_session(case))
+        return
+    if case.get("large"):
+        cfg = {k: case[k] for k in ("K", "seed", "n_realizations", "max_iter", "min_value_par", "normalizeU", "baseline_r0")}
+        check_large(ctx, drv, large_case(case["large"], cfg), hysc_fits=4, mt=True, replaying=True)
         return
     for k in ("realization", "iter", "from", "to", "line", "u", "w", "perm", "exact"):
         case.pop(k, None)
